@@ -143,7 +143,14 @@ func hexOrDash(b []byte) string {
 	return hex.EncodeToString(b)
 }
 
+// splitNext, when set by a generator, makes the next msg / ext op reach the node in pieces (split=<n>).
+var splitNext uint64
+
 func msgOp(cmd string, p []byte, extra ...string) string {
+	if splitNext != 0 {
+		extra = append(extra, fmt.Sprintf("split=%d", splitNext))
+		splitNext = 0
+	}
 	s := "msg cmd=" + cmd
 	if len(p) > 0 {
 		s += " pay=" + hex.EncodeToString(p)
@@ -155,6 +162,10 @@ func msgOp(cmd string, p []byte, extra ...string) string {
 }
 
 func extOp(cmd string, p []byte, extra ...string) string {
+	if splitNext != 0 {
+		extra = append(extra, fmt.Sprintf("split=%d", splitNext))
+		splitNext = 0
+	}
 	s := "ext cmd=" + cmd
 	if len(p) > 0 {
 		s += " pay=" + hex.EncodeToString(p)
@@ -750,7 +761,11 @@ func genC14(g *gctx) {
 			g.splitMessage()
 			continue
 		}
+		if r.Chance(20) {
+			splitNext = 1 + uint64(r.Next()%1000000007) // any message of the repertoire, delivered in pieces
+		}
 		g.wellFormed(true)
+		splitNext = 0
 	}
 	g.emit(fmt.Sprintf("ping n=%d", 2000000+r.Intn(1000000)))
 	g.emit("close")
